@@ -7,9 +7,33 @@ import (
 // A decision is a point with k possible outcomes. alts holds the outcomes
 // still to be explored after the chosen one.
 type decision struct {
-	k      int
-	chosen int
+	K      int   `json:"k"`
+	Chosen int   `json:"c"`
 	alts   []int
+	PcLen  int   `json:"p"` // length of the path condition before this decision
+	Forced bool  `json:"f"` // only one outcome was feasible: nothing was added to the pc
+}
+
+// checkSplit ends the path at the split depth (master of a parallel run): the
+// decisions taken so far become a prefix for a worker process.
+func (in *Interp) checkSplit() {
+	if in.splitDepth <= 0 {
+		return
+	}
+	n := 0
+	for _, d := range in.path {
+		if !d.Forced {
+			n++
+		}
+	}
+	if n >= in.splitDepth {
+		pf := make([]decision, len(in.path))
+		for i, d := range in.path {
+			pf[i] = decision{K: d.K, Chosen: d.Chosen, PcLen: d.PcLen, Forced: d.Forced}
+		}
+		in.frontier = append(in.frontier, pf)
+		panic(pathEnd{"frontier", ""})
+	}
 }
 
 // feasible decides satisfiability of pc ∧ c. Unknown counts as feasible (the
@@ -19,6 +43,9 @@ func (in *Interp) feasible(c *Term, wantModel bool) bool {
 		return c.cval != 0
 	}
 	in.stats.feasQueries++
+	if in.prof != nil && in.curSite != nil {
+		in.prof[in.prog.Fset.Position(in.curSite.Pos()).String()+" "+in.curSite.Parent().Name()]++
+	}
 	res, model := in.solver.check(in.pc, c, wantModel)
 	switch res {
 	case rUnsat:
@@ -52,6 +79,35 @@ func (in *Interp) addPC(c *Term) {
 		return
 	}
 	in.pc = append(in.pc, c)
+	in.pcSet[c] = true
+	if in.model != nil {
+		if mv, ok := in.evalUnderModel(c); !ok || !mv {
+			in.model = nil
+		}
+	}
+}
+
+type implEnt struct {
+	val   bool
+	pcLen int
+}
+
+// known reports whether the path condition is already known to decide c.
+func (in *Interp) known(c *Term) (bool, bool) {
+	if in.pcSet[c] {
+		return true, true
+	}
+	nc := mkNot(c)
+	if in.pcSet[nc] {
+		return false, true
+	}
+	if e, ok := in.implied[c]; ok && e.pcLen <= len(in.pc) {
+		return e.val, true
+	}
+	if e, ok := in.implied[nc]; ok && e.pcLen <= len(in.pc) {
+		return !e.val, true
+	}
+	return false, false
 }
 
 // truth turns a boolean value into a Go bool, forking on symbolic ones.
@@ -78,24 +134,30 @@ func (in *Interp) branch(c *Term) bool {
 	if in.pos < len(in.path) {
 		d := in.path[in.pos]
 		in.pos++
-		if d.k != 2 {
-			panic(fmt.Sprintf("replay divergence: expected %d-way decision, got branch", d.k))
+		if d.K != 2 {
+			panic(fmt.Sprintf("replay divergence: expected %d-way decision, got branch", d.K))
 		}
-		if d.chosen == 0 {
-			in.addPC(c)
+		if d.Chosen == 0 {
+			if !d.Forced {
+				in.addPC(c)
+			}
 			return true
 		}
-		in.addPC(mkNot(c))
+		if !d.Forced {
+			in.addPC(mkNot(c))
+		}
 		return false
 	}
+	in.checkSplit()
 	if len(in.path) >= in.cfg.maxDecisions {
 		panic(pathEnd{"bound", fmt.Sprintf("decision bound %d exceeded", in.cfg.maxDecisions)})
 	}
-	in.stats.decisions++
 	nc := mkNot(c)
 	var first bool
 	var other bool
-	if mv, ok := in.evalUnderModel(c); ok {
+	if kv, ok := in.known(c); ok {
+		first, other = kv, false
+	} else if mv, ok := in.evalUnderModel(c); ok {
 		first = mv
 		if mv {
 			other = in.feasible(nc, false)
@@ -113,24 +175,32 @@ func (in *Interp) branch(c *Term) bool {
 			in.model = nil
 		}
 	}
-	d := decision{k: 2}
+	d := decision{K: 2, PcLen: len(in.pc), Forced: !other}
 	if first {
-		d.chosen = 0
+		d.Chosen = 0
 		if other {
 			d.alts = []int{1}
 		}
 	} else {
-		d.chosen = 1
+		d.Chosen = 1
 		if other {
 			d.alts = []int{0}
 		}
 	}
 	in.path = append(in.path, d)
 	in.pos++
-	if first {
-		in.addPC(c)
+	if other {
+		in.stats.decisions++
+		if first {
+			in.addPC(c)
+		} else {
+			in.addPC(nc)
+		}
 	} else {
-		in.addPC(nc)
+		in.stats.forced++
+		if !in.uncertain {
+			in.implied[c] = implEnt{first, len(in.pc)}
+		}
 	}
 	return first
 }
@@ -144,14 +214,15 @@ func (in *Interp) choose(k int, cond func(i int) *Term) int {
 	if in.pos < len(in.path) {
 		d := in.path[in.pos]
 		in.pos++
-		if d.k != k {
-			panic(fmt.Sprintf("replay divergence: expected %d-way decision, got %d-way", d.k, k))
+		if d.K != k {
+			panic(fmt.Sprintf("replay divergence: expected %d-way decision, got %d-way", d.K, k))
 		}
 		if cond != nil {
-			in.addPC(cond(d.chosen))
+			in.addPC(cond(d.Chosen))
 		}
-		return d.chosen
+		return d.Chosen
 	}
+	in.checkSplit()
 	if len(in.path) >= in.cfg.maxDecisions {
 		panic(pathEnd{"bound", fmt.Sprintf("decision bound %d exceeded", in.cfg.maxDecisions)})
 	}
@@ -163,31 +234,41 @@ func (in *Interp) choose(k int, cond func(i int) *Term) int {
 			continue
 		}
 		c := cond(i)
+		if kv, ok := in.known(c); ok {
+			if kv {
+				feas = append(feas, i)
+			}
+			continue
+		}
 		if mv, ok := in.evalUnderModel(c); ok && mv {
 			feas = append(feas, i)
 			continue
 		}
 		if in.feasible(c, false) {
 			feas = append(feas, i)
+		} else if !in.uncertain {
+			in.implied[c] = implEnt{false, len(in.pc)}
 		}
 	}
 	if len(feas) == 0 {
 		panic(pathEnd{"assume", "no feasible outcome in n-way decision"})
 	}
-	d := decision{k: k, chosen: feas[0], alts: feas[1:]}
+	d := decision{K: k, Chosen: feas[0], alts: feas[1:], PcLen: len(in.pc)}
 	in.path = append(in.path, d)
 	in.pos++
 	if cond != nil {
-		c := cond(d.chosen)
+		c := cond(d.Chosen)
 		in.addPC(c)
 		if mv, ok := in.evalUnderModel(c); !ok || !mv {
 			in.model = nil
 		}
 	}
-	return d.chosen
+	return d.Chosen
 }
 
-// concretize picks a concrete value in [0,n) for a 64-bit term.
+// concretize picks a concrete value in [0,n) for a 64-bit term. The feasible
+// values are enumerated with the solver's models (one query per value) rather
+// than by testing every candidate.
 func (in *Interp) concretize(t *Term, n int) int {
 	if t.isConst() {
 		return int(t.cval)
@@ -195,16 +276,111 @@ func (in *Interp) concretize(t *Term, n int) int {
 	if n <= 0 {
 		panic(pathEnd{"assume", "concretize over empty range"})
 	}
-	return in.choose(n, func(i int) *Term { return mkEq(t, mkBV(uint64(i), t.sort.w)) })
+	if in.concrete {
+		panic("concretize in concrete mode")
+	}
+	cond := func(i int) *Term { return mkEq(t, mkBV(uint64(i), t.sort.w)) }
+	if in.pos < len(in.path) {
+		d := in.path[in.pos]
+		in.pos++
+		if d.K != n {
+			panic(fmt.Sprintf("replay divergence: expected %d-way decision, got %d-way concretisation", d.K, n))
+		}
+		in.addPC(cond(d.Chosen))
+		return d.Chosen
+	}
+	in.checkSplit()
+	if len(in.path) >= in.cfg.maxDecisions {
+		panic(pathEnd{"bound", fmt.Sprintf("decision bound %d exceeded", in.cfg.maxDecisions)})
+	}
+	in.stats.decisions++
+	var feas []int
+	if n <= 3 {
+		for i := 0; i < n; i++ {
+			c := cond(i)
+			if kv, ok := in.known(c); ok {
+				if kv {
+					feas = append(feas, i)
+				}
+				continue
+			}
+			if in.feasible(c, false) {
+				feas = append(feas, i)
+			}
+		}
+	} else {
+		// model-guided enumeration
+		excl := mkCmp("bvult", t, mkBV(uint64(n), t.sort.w))
+		first := true
+		for len(feas) < n {
+			var v uint64
+			got := false
+			if first {
+				first = false
+				if mv, ok := in.evalUnderModel(excl); ok && mv {
+					if x, ok := evalTerm(t, in.model, in.modelMemo); ok {
+						v, got = x, true
+					}
+				}
+			}
+			if !got {
+				in.stats.feasQueries++
+				res, model := in.solver.check(in.pc, excl, true)
+				if res == rUnsat {
+					break
+				}
+				if res != rSat {
+					in.stats.unknownFeas++
+					in.uncertain = true
+					// fall back to trying every remaining candidate
+					for i := 0; i < n; i++ {
+						dup := false
+						for _, f := range feas {
+							if f == i {
+								dup = true
+							}
+						}
+						if !dup && in.feasible(cond(i), false) {
+							feas = append(feas, i)
+						}
+					}
+					break
+				}
+				x, ok := evalTerm(t, model, map[*Term]uint64{})
+				if !ok {
+					panic(unsupported{"cannot evaluate term under model"})
+				}
+				v = x
+			}
+			if v >= uint64(n) {
+				panic(fmt.Sprintf("concretize: model value %d out of range %d", v, n))
+			}
+			feas = append(feas, int(v))
+			excl = mkAnd(excl, mkNot(cond(int(v))))
+		}
+	}
+	if len(feas) == 0 {
+		panic(pathEnd{"assume", "no feasible value in concretisation"})
+	}
+	d := decision{K: n, Chosen: feas[0], alts: feas[1:], PcLen: len(in.pc)}
+	in.path = append(in.path, d)
+	in.pos++
+	in.addPC(cond(d.Chosen))
+	return d.Chosen
 }
 
 // backtrack prepares the next path; false when exploration is complete.
 func (in *Interp) backtrack() bool {
-	for len(in.path) > 0 {
+	for len(in.path) > in.base {
 		d := &in.path[len(in.path)-1]
 		if len(d.alts) > 0 {
-			d.chosen = d.alts[0]
+			d.Chosen = d.alts[0]
 			d.alts = d.alts[1:]
+			for k, e := range in.implied {
+				if e.pcLen > d.PcLen {
+					delete(in.implied, k)
+				}
+			}
 			return true
 		}
 		in.path = in.path[:len(in.path)-1]
